@@ -365,6 +365,10 @@ where
     for k in [2, 3, 5, 7, 11, 13, 17, 19_u32] {
         let r = n.nth_root(k);
         if r.pow(k) == n {
+            if r == n {
+                // n is 0 or 1: it is its own root, recursing would never end.
+                return Some((r, k));
+            }
             if let Some((rr, kk)) = perfect_power(r) {
                 return Some((rr, k * kk));
             }
